@@ -147,6 +147,8 @@ structure World where
   feePool : FeePool.S
   feed : FeedS
   ledger : Ledger
+  /-- ghost: collateral transfers executed so far in the current transaction (from, to, amount), in order -/
+  log : List (Nat × Nat × Nat) := []
   deriving Repr, DecidableEq, Inhabited
 
 namespace World
@@ -221,15 +223,15 @@ def execMsg (fuel : Nat) (w : World) (sender : Nat) (m : Msg) : Except Err (Worl
         pure (w.setVamm a v', .none)
     | .tokenTransfer to amt => do
         let g ← w.ledger.tokenTransfer sender to amt
-        pure ({ w with ledger := g }, .none)
+        pure ({ w with ledger := g, log := w.log ++ [(sender, to, amt)] }, .none)
     | .tokenTransferFrom owner to amt =>
         -- only the engine holds allowances in this model
         if sender ≠ ENGINE then .error (.guard 91) else do
         let g ← w.ledger.tokenTransferFrom owner to amt
-        pure ({ w with ledger := g }, .none)
+        pure ({ w with ledger := g, log := w.log ++ [(owner, to, amt)] }, .none)
     | .bankSend to amt => do
         let g ← w.ledger.bankSend sender to amt
-        pure ({ w with ledger := g }, .none)
+        pure ({ w with ledger := g, log := if amt = 0 then w.log else w.log ++ [(sender, to, amt)] }, .none)
     | .ifWithdraw amt =>
         -- insurance fund `withdraw`: only the engine; pays the engine; ReplyOn::Never
         if w.engine.cfg.insuranceFund ≠ IFUND then .error (.guard 95)
@@ -310,7 +312,7 @@ def collateralTok (w : World) : Nat := if w.engine.cfg.native then 0 else TOKEN
 /-- one transaction by `sender` with `funds` attached, in block `env`.  An error leaves the world
     unchanged (the caller keeps `w`). -/
 def applyTx (w0 : World) (env : Env) (sender : Nat) (funds : Engine.Funds) (tx : Tx) : Except Err World :=
-  let w := { w0 with env := env }
+  let w := { w0 with env := env, log := [] }
   match tx with
   | .engine m => do
       -- `execute_wasm`: first move the attached cash (native collateral only)
@@ -387,20 +389,16 @@ def applyTx (w0 : World) (env : Env) (sender : Nat) (funds : Engine.Funds) (tx :
         .ok { w with ledger := { w.ledger with allow := Ledger.set w.ledger.allow sender (if amt < cur then cur - amt else 0) } }
   | .tokenTransfer to amt =>
       if w.engine.cfg.native then .error (.guard 95)
-      else do
-        let g ← w.ledger.tokenTransfer sender to amt
-        pure { w with ledger := g }
+      else (execMsg FUEL w sender (.tokenTransfer to amt)).map (·.1)
   | .bankSend to amt =>
       if !w.engine.cfg.native then .error (.guard 95)
-      else do
-        let g ← w.ledger.bankSend sender to amt
-        pure { w with ledger := g }
+      else (execMsg FUEL w sender (.bankSend to amt)).map (·.1)
 
 /-- transactional step: a failed transaction changes nothing but the clock -/
 def step (w : World) (env : Env) (sender : Nat) (funds : Engine.Funds) (tx : Tx) : World :=
   match applyTx w env sender funds tx with
   | .ok w' => w'
-  | .error _ => { w with env := env }
+  | .error _ => { w with env := env, log := [] }
 
 end World
 end Perp
